@@ -111,6 +111,13 @@ def gate_by_id(gid):
 
         M = {"UA": [[1, 0], [0, I]], "UB": [[1, 0], [0, -1]], "UC": [[0, 1], [I, 0]]}[base]
         g = CustomGateDefinition("U", sympy.Matrix(M), ())()
+    elif base[:3] in ("VA(", "VB(") and base.endswith(")"):
+        # two DIFFERENT one-parameter custom gates that share the gate name "V" (same name AND same parameter values)
+        from orquestra.quantum.circuits import CustomGateDefinition
+
+        t = S("t_v")
+        M = [[sympy.cos(t), -sympy.sin(t)], [sympy.sin(t), sympy.cos(t)]] if base[1] == "A" else [[sympy.exp(I * t), 0], [0, 1]]
+        g = CustomGateDefinition("V", sympy.Matrix(M), (t,))(parse_param(base[3:-1]))
     elif base in ("CDI", "CSY(th0)", "CSY(0.7)"):
         from .props import c07
 
